@@ -139,6 +139,7 @@ class Runner:
     def __init__(self, ck, exe, scratch):
         self.ck, self.exe, self.scratch = ck, exe, scratch
         self.traces = set()
+        self.own_notes = []
         self.stats = {}
         self.njob = 0
 
@@ -198,6 +199,7 @@ def fold(R, res):
     ck, job = R.ck, res["job"]
     what = job["what"]
     R.traces.update(res["traces"])
+    R.own_notes.extend(n for n in res["notes"] if n.startswith("own scenario="))
     for c in res["cases"]:
         f = c["f"]
         fired = f.get("fired") == "1"
@@ -367,6 +369,19 @@ def _run(ck, R, exe, quick, scratch):
         for i, m in enumerate(big):
             add("load-big:%s" % os.path.basename(m), ["faults", "load", ENTRIES[(i + seed) % 4], m, 0, -1, -120, 2], kpos=4, timeout=1500)
         ck.note("big_modules", len(big))
+    # A'. modules with channel extras (MED/HMN/FAR) and sound-effect channels reserved by xmp_start_smix: the
+    #     extras loop of xmp_start_player then also covers the smix channels
+    ext = [f for f in vlib.corpus_files() if re.search(r"(\.med|med\.|\.far|hmn|\.mmd)", os.path.basename(f), re.I)
+           and 200 < os.path.getsize(f) <= 200000 and not f.endswith((".data", ".txt"))]
+    ck.rng.shuffle(ext)
+    ext = ext[:4] if quick else ext
+    for i, m in enumerate(ext):
+        bn = os.path.basename(m)
+        add("startsmix:" + bn, ["faults", "startsmix", ENTRIES[(i + seed) % 4], m, 0, -1, 1], kpos=4)
+        add("start-extras:" + bn, ["faults", "start", "mem", m, 0, -1, 1], kpos=4)
+    for m in mods[:6 if quick else 60]:
+        add("startsmix:" + os.path.basename(m), ["faults", "startsmix", "mem", m, 0, -1, 1], kpos=4)
+    ck.note("extras_modules", [os.path.basename(m) for m in ext][:20])
     # F. stream ownership scenarios
     garbage = os.path.join(scratch, "garbage.bin")
     open(garbage, "wb").write(bytes((i * 37 + 11) & 0xff for i in range(3000)))
@@ -458,6 +473,28 @@ def correspondence(ck, R):
                         "case `%s`: real=%s model=%s" % (key, sorted(real), mo_c))
         else:
             n_ok += 1
+    # callbacks refused by cbopen / size probe failing in hio_open_callbacks: close count and residue
+    own = {}
+    for n in R.own_notes:
+        kv = dict(x.split("=", 1) for x in n.split(" ")[1:] if "=" in x)
+        m = re.match(r"cbopen_refuse(\d)", kv.get("scenario", ""))
+        if not m or "residue" not in kv:
+            continue
+        i = int(m.group(1))
+        key = "stream cb %d 1 %d -1" % (0 if i < 3 else 1, 1 if i < 3 else 0)
+        own.setdefault(key, set()).add("opened=0 cb=%s live=%s" % (kv["closes"], kv["residue"]))
+    if own:
+        okeys = sorted(own)
+        oo = vlib.run_driver("drv_c04", "\n".join(okeys) + "\n")
+        for key, mo in zip(okeys, oo):
+            mkv = dict(x.split("=", 1) for x in mo.split(" "))
+            want = "opened=%s cb=%s live=%s" % (mkv["opened"], mkv["cb"], mkv["live"])
+            if own[key] != {want}:
+                ck.unproved("correspondence Resource.hioOpenCallbacks vs hio_open_callbacks/cbopen",
+                            "case `%s`: real=%s model=%s" % (key, sorted(own[key]), want))
+            else:
+                n_ok += 1
+    ck.note("callback_open_failures_compared", len(own))
     ck.cov["traces_validated_against_impl"] += n_ok
     ck.note("start_ledgers_compared", len(starts))
     ck.note("release_ledgers_compared", len(rels))
